@@ -83,7 +83,7 @@ class Inst:
     if k == "id":
       n = e[1]
       if n in env: return ("$loc", n, 0, 32, ("vec", 32))
-      if n not in self.vars: raise SimError(f"{self.m['name']}: undeclared identifier {n}")
+      if n not in self.vars: raise SvSyntaxError(f"{self.m['name']}: undeclared identifier {n}")
       t, dims, _ = self.vars[n]
       return (n, [] if dims else None, 0, self.d.twidth(t), t) if dims else (n, 0, 0, self.d.twidth(t), t)
     if k == "idx":
@@ -196,6 +196,7 @@ class Inst:
     k = e[0]
     if k == "id":
       if e[1] in env: return ("vec", 32), 0
+      if e[1] not in self.vars: raise SvSyntaxError(f"{self.m['name']}: undeclared identifier {e[1]}")
       t, dims, _ = self.vars[e[1]]
       return t, len(dims)
     if k == "idx":
